@@ -30,7 +30,7 @@ def log(*a):
 # ------------------------------------------------------------------ build
 
 HARNESS = {
-    '': ['gate.go', 'prog.go', 'proj.go', 'main_test.go'],
+    '': ['gate.go', 'prog.go', 'proj.go', 'main_test.go', 'codec.go'],
 }
 
 
